@@ -3181,14 +3181,33 @@ func loopVarVal(n *node) {
 	}
 }
 
+// loopVarFor starts an iteration of a three-clause for statement: the body uses
+// the current variables of the loop.
 func loopVarFor(n *node) {
-	ixn := n.anc.anc.child[0].child[0]
+	pairs := n.val.([][2]int)
 	next := getExec(n.tnext)
 	n.exec = func(f *frame) bltn {
-		fv := f.data[ixn.findex]
-		nv := reflect.New(fv.Type()).Elem()
-		nv.Set(fv)
-		f.data[n.findex] = nv
+		for _, p := range pairs {
+			f.data[p[1]] = f.data[p[0]]
+		}
+		return next
+	}
+}
+
+// loopVarForNext ends an iteration of a three-clause for statement: prior to
+// the post statement, the loop gets fresh variables initialized with the values
+// of the variables of the iteration which ends (those remain to the closures
+// which captured them).
+func loopVarForNext(n *node) {
+	pairs := n.val.([][2]int)
+	next := getExec(n.tnext)
+	n.exec = func(f *frame) bltn {
+		for _, p := range pairs {
+			fv := f.data[p[0]]
+			nv := reflect.New(fv.Type()).Elem()
+			nv.Set(fv)
+			f.data[p[0]] = nv
+		}
 		return next
 	}
 }
